@@ -13,6 +13,48 @@ CHECKS = {
         text="Every execution of the real find_main/binary on a generated expression and tree is compared byte-for-byte (stdout, -fprint* files, recorder log of -exec) with an independent reference evaluation of the same token list; quick ~25k expressions / 14k distinct operator shapes, thorough ~600k. Held means: no observed execution deviated.",
         note="Trusts lib/refeval.py + lib/refwalk.py (self-checked against a hand-derived table each run) and glibc fnmatch for simple -name patterns; trees on tmpfs, follow mode -P only; expression depth <= 7.",
         ref="DESIGN.md section 4 C01"),
+    "C02": dict(
+        technique="runtime monitoring: multiset oracle (independent lstat/stat walker) over -print0 output, stderr and exit status; fault injection (mode-000 directory walked as uid 65534)",
+        level="exploration",
+        text="Each run of the real find (in-process find_main and the binary) over random trees with every kind of link, 1-3 starting points, all follow modes, (mindepth,maxdepth) pairs including min>max and -depth is compared as a multiset with an independent reference walk; exit status/diagnostic against modelled error events (missing root, unreadable directory, directory cycle). Quick ~3.5k runs, thorough ~150k.",
+        note="Trusts lib/refwalk.py (self-checked); cycle-closing links and unreadable directories themselves are optional in the output; ELOOP links not judged for exit status; tmpfs only.",
+        ref="DESIGN.md section 4 C02"),
+    "C03": dict(
+        technique="runtime monitoring: exact visit-sequence oracle (reference sorted DFS with prune predicate from the reference evaluator) + oracle-free metamorphic relation (-depth with/without -prune)",
+        level="exploration",
+        text="The complete sequence printed by find r -sorted [-depth] EXPR is compared with the reference pre/post-order walk for 8 prune expression shapes and name/path/iname/regex/glob selections on trees whose sibling names separate byte order from locale order; under -depth/-delete the run with -prune replaced by -true must print the same bytes. Quick ~3.5k sequences, thorough ~110k.",
+        note="Follow mode -P only (the statement does not quantify over follow modes; -H -depth on a symlinked root emits the root first, a walkdir quirk recorded in DESIGN.md). Trusts refwalk/refeval.",
+        ref="DESIGN.md section 4 C03"),
+    "C04": dict(
+        technique="runtime monitoring: invariant checker over the recorder log (argv of every child, in order) of the real xargs binary: conservation, fixed prefix, -n/-L/-s limits, maximality, empty-input and oversize rules",
+        level="exploration",
+        text="Every xargs run's child argv sequence is checked against the unique maximal batching implied by the statement's invariants, computed from the reference tokenisation; option values are chosen so that each limit, and two limits at once, bind. Quick 3.2k runs / 7k children, thorough 96k runs.",
+        note="Inputs free of quotes/backslashes (C05 owns those); -x overflow coinciding with an -n/-L boundary not judged; -s below the system budget.",
+        ref="DESIGN.md section 4 C04"),
+    "C05": dict(
+        technique="runtime monitoring: online chunking-independence checker on the hooked real readers (bounded-exhaustive inputs x cut sets, injected EINTR) + reference tokenizer oracle + binary fed by a chunked writer",
+        level="exploration",
+        text="Exhaustive over an 8-symbol separator/quote/escape/letter/multibyte alphabet up to length 6 (quick, 300k inputs, 8M input-chunking pairs) / 8 (thorough, 19M inputs), every cut set for short inputs, plus long inputs straddling the 4096/8192 buffer edges under 20 chunkings, -0 and -d modes, and a binary sample. Any chunking whose result differs from the unchunked one, or any unchunked result differing from the reference tokenizer, is a violation.",
+        note="Hook xargs::verif::split constructs the two private readers exactly as do_xargs does. Not judged: stand-alone empty quoted tokens, newline inside quotes, trailing backslash, CR/FF/VT/NUL in default mode, empty fields in -0/-d mode.",
+        ref="DESIGN.md section 4 C05"),
+    "C06": dict(
+        technique="runtime monitoring: strace execve event log (E2BIG = refutation) + exit status + compact recorder log with running CRC chain (exactly-once, order) under an rlimit/environment grid",
+        level="exploration",
+        text="xargs is run under strace -f over a grid of argument counts up to 6e5 (quick) / 1e6 (thorough), length distributions from 1 byte to the 131071-byte per-argument limit, environment sizes to 1MB, RLIMIT_STACK 512KiB..unlimited, with/without -n/-s (including -s above the OS budget); the kernel itself is the oracle for acceptance, the recorder chain for delivery. Over-long single arguments must give exit 1 and never reach exec.",
+        note="Verdict is for this kernel's execve accounting and glibc sysconf(ARG_MAX); per-argument limit = 32 pages.",
+        ref="DESIGN.md section 4 C06"),
+    "C19": dict(
+        technique="runtime monitoring: scripted recorder outcomes, exit status and number of invocations started vs the documented function; bounded-exhaustive over outcome classes",
+        level="exploration",
+        text="Exhaustive over the four outcome classes (0, 1..125, 255, signal) for every sequence length <= 5 (quick, 1364 sequences) / 7 (thorough, 21844), random sequences to length 12, missing / non-executable command, usage and input errors.",
+        note="Child statuses 126..254 not judged.",
+        ref="DESIGN.md section 4 C19"),
+    "C20": dict(
+        technique="runtime monitoring: recorder argv per invocation vs textual substitution model; option-order matrix for -I/-n/-L",
+        level="exploration",
+        text="Random line sets and initial-argument templates with 0-3 occurrences of R, six replacement strings in five spellings, empty input, -I with -n 1, and all orderings of all subsets of {-I,-n,-L} (mode of the last option judged with C04's batching model).",
+        note="Lines free of quotes, backslashes, leading/trailing blanks (statement's restriction).",
+        ref="DESIGN.md section 4 C20"),
 }
 
 PENDING = {}
